@@ -26,8 +26,7 @@ theorem cap_installed :
   unfold PState.setFirst; split <;> rfl
 @[simp] theorem setQ_ml (s : PState) (q : Bool) : (s.setQ q).maxLvl = s.maxLvl := by
   unfold PState.setQ; split <;> rfl
-@[simp] theorem setComplete_ml (s : PState) (l : Nat) : (s.setComplete l).maxLvl = s.maxLvl := by
-  unfold PState.setComplete; split <;> rfl
+
 
 theorem consumeSpace_ml (b : Bytes) (s : PState) : (consumeSpace b s).2.maxLvl = s.maxLvl := by
   induction b generalizing s with
@@ -164,10 +163,13 @@ theorem depth_inv (qs : List Query) (cap : Nat) (hc : cap ≠ 0) (M : Nat) (hM :
           have h2 := hdisp rv t s2 hd
           simp only
           split
-          · split <;> simpa using h2
+          · simpa using h2
           · rename_i r
-            rw [consumeSpace_ml]
-            simpa using h2
+            have := consumeSpace_ml r ((s2.setFirst lvl t).setQ qs.isEmpty)
+            generalize consumeSpace r ((s2.setFirst lvl t).setQ qs.isEmpty) = cr at this
+            obtain ⟨r', s5⟩ := cr
+            simp only at this ⊢
+            rw [this]; simpa using h2
     · intro lvl b s hl hs
       simp only [arrayLoop]
       have hsp := consumeSpace_ml b s
@@ -182,18 +184,17 @@ theorem depth_inv (qs : List Query) (cap : Nat) (hc : cap ≠ 0) (M : Nat) (hM :
         split
         · simpa using h1
         · have hA := ihA lvl (c :: cs) s1 hl h1
-          generalize consumeAny qs cap f lvl (c :: cs) s1 = res at hA
-          obtain ⟨r, s2⟩ := res
-          simp only at hA ⊢
           split
-          · exact hA
-          · split
-            · exact hA
+          · rename_i s2 heq2; rw [heq2] at hA; exact hA
+          · rename_i s2 heq2; rw [heq2] at hA; exact hA
+          · rename_i d ds s2 heq2
+            rw [heq2] at hA
+            simp only at hA
+            split
+            · exact ihL lvl _ _ hl (by simpa using hA)
             · split
-              · exact ihL lvl _ _ hl (by simpa using hA)
-              · split
-                · simpa using hA
-                · exact hA
+              · simpa using hA
+              · exact hA
     · intro lvl b s hl hs
       simp only [objectLoop]
       have hsp := consumeSpace_ml b s
@@ -241,12 +242,12 @@ theorem depth_inv (qs : List Query) (cap : Nat) (hc : cap ≠ 0) (M : Nat) (hM :
                       have : s5.maxLvl = s4.maxLvl := by rw [heq5] at hsp5; simpa using hsp5
                       omega
                     have hA := ihA lvl (e :: es) s5 hl h5
-                    generalize consumeAny qs cap f lvl (e :: es) s5 = res at hA
-                    obtain ⟨r2, s6⟩ := res
-                    simp only at hA ⊢
                     split
-                    · exact hA
-                    · have h7 : (applyQuery (if (s2.push ((consumed cs r).dropLast)).querySatisfied = true then none
+                    · rename_i s6 heq6; rw [heq6] at hA; exact hA
+                    · rename_i r2 s6 heq6
+                      rw [heq6] at hA
+                      simp only at hA
+                      have h7 : (applyQuery (if (s2.push ((consumed cs r).dropLast)).querySatisfied = true then none
                           else queryPathMatch qs (s2.push ((consumed cs r).dropLast)).currPath) (consumed (e :: es) r2) s6).maxLvl ≤ M := by
                         rw [applyQuery_ml]; exact hA
                       split
@@ -269,7 +270,7 @@ theorem depth_bounded (qs : List Query) (cap : Nat) (hc : cap ≠ 0) (fuel : Nat
 
 /-- an entry above the cap returns at once: nothing is consumed, nothing is inspected -/
 theorem over_cap_entry (qs : List Query) (cap : Nat) (hc : cap ≠ 0) (fuel lvl : Nat) (b : Bytes) (s : PState)
-    (h : lvl > cap) : (consumeAny qs cap (fuel + 1) lvl b s).1 = b ∧ (consumeAny qs cap (fuel + 1) lvl b s).2.ib = s.ib := by
+    (h : lvl > cap) : (consumeAny qs cap (fuel + 1) lvl b s).1 = none ∧ (consumeAny qs cap (fuel + 1) lvl b s).2.ib = s.ib := by
   simp only [consumeAny]
   have : (cap != 0 && decide (lvl > cap)) = true := by simp [hc, h]
   simp [this, PState.enter]
